@@ -1849,13 +1849,13 @@ pub fn convert_to_comparable(value: &[u8], buf: &mut Vec<u8>) {
             buf.push(depth);
             buf.push(ARRAY_LEVEL);
             let length = (header & CONTAINER_HEADER_LEN_MASK) as usize;
-            array_convert_to_comparable(depth + 1, length, &value[4..], buf);
+            array_convert_to_comparable(depth.saturating_add(1), length, &value[4..], buf);
         }
         OBJECT_CONTAINER_TAG => {
             buf.push(depth);
             buf.push(OBJECT_LEVEL);
             let length = (header & CONTAINER_HEADER_LEN_MASK) as usize;
-            object_convert_to_comparable(depth + 1, length, &value[4..], buf);
+            object_convert_to_comparable(depth.saturating_add(1), length, &value[4..], buf);
         }
         _ => {}
     }
@@ -1876,11 +1876,11 @@ fn scalar_convert_to_comparable(depth: u8, jentry: &JEntry, value: &[u8], buf: &
             match header & CONTAINER_HEADER_TYPE_MASK {
                 ARRAY_CONTAINER_TAG => {
                     buf.push(ARRAY_LEVEL);
-                    array_convert_to_comparable(depth + 1, length, &value[4..], buf);
+                    array_convert_to_comparable(depth.saturating_add(1), length, &value[4..], buf);
                 }
                 OBJECT_CONTAINER_TAG => {
                     buf.push(OBJECT_LEVEL);
-                    object_convert_to_comparable(depth + 1, length, &value[4..], buf);
+                    object_convert_to_comparable(depth.saturating_add(1), length, &value[4..], buf);
                 }
                 _ => {}
             }
